@@ -631,8 +631,15 @@ def install_loops(I, vc):
         entry_ids = set(entry.heap)
         heads1 = []
         run_iter(n, st, fr, heads1, exits)
-        for h in [x.fork() for x in heads1]:
-            run_iter(n, h, fr, [], exits)      # 1 iteration from the real entry state, then exit
+        # base cases: `entry_iters` iterations from the real entry state, then exit
+        hs = heads1
+        for _ in range(getattr(vc, "entry_iters", 1) - 1):
+            nxt = []
+            for h in [x.fork() for x in hs]:
+                run_iter(n, h, fr, nxt, exits)
+            hs = nxt
+        for h in [x.fork() for x in hs]:
+            run_iter(n, h, fr, [], exits)
         if not heads1:
             return exits
         names = sorted(CP._assigned_names(n))
@@ -851,6 +858,16 @@ def loop_list(R, lst):
 #   unary    := ("-"|"+") unary' | primary ; then postfix ; then filters/tests (when with_filter)
 #   postfix  := ( "." name | "." integer | "[" subscribed,* "]" | call )*
 #   filters  := ( "|" filter | "is" test | call )*
+#   filter   := name ("." name)* [call-args]              Filter(node, dotted name, args...) ; chained left to right
+#   test     := "is" ["not"] name ("." name)* [call-args | operand]    ("If the test only takes one argument, you can leave
+#               out the parentheses"): the bare operand is a primary + postfix and does not start with a keyword that continues
+#               the enclosing expression (else / or / and / if / in / not); `is` again is an error
+#   call-args:= "(" [arg ("," arg)* [","]] ")"            positional, then keyword (name "=" expr), "*" expr, "**" expr;
+#               positional after keyword / after "*" / "**", and anything after "**" are syntax errors
+#
+# Decisions where docs/templates.rst is silent (also listed in META of contracts/c02.py):
+#   * unary minus/plus bind tighter than `**` on their operand and take postfix but no filter (property statement);
+#   * `x[]` is a subscript with the empty tuple; `x.0` is the item 0.
 # ------------------------------------------------------------------------------------------------
 
 def fold_rule(lower, ops, lower_params=None):
@@ -1132,7 +1149,23 @@ def r_subscript(R, node=None, **_):
     R.tok("rbracket")
     c1 = args.len_is(R, 1)
     one = lambda: Nd(N.Getitem, node=node, arg=args.first(R), ctx="load")  # noqa: E731
-    many = lambda: Nd(N.Getitem, node=node, arg=Nd(N.Tuple, items=args.expected(), ctx="load"), ctx="load")  # noqa: E731
+
+    def many():
+        # a slice is a subscript of its own (x[a:b]); among several subscript items it is a syntax error
+        flags = []
+        for it in args.items:
+            h = R.st.get(it) if isinstance(it, Ref) else None
+            f = h.fields.get("isinst:Slice") if h is not None else None
+            flags.append(to_term(f, "bool") if f is not None else None)
+        known = args.hole is None and all(f is not None for f in flags)
+        if R.choose(2) == 1:
+            if known:
+                R.guard_term(z3.Or(*flags) if flags else z3.BoolVal(False), label="slice-among-subscript-items")
+            R.fail()
+        if known and flags:
+            R.guard_term(z3.Not(z3.Or(*flags)), label="slice-among-subscript-items")
+        return Nd(N.Getitem, node=node, arg=Nd(N.Tuple, items=args.expected(), ctx="load"), ctx="load")
+
     if c1 is True:
         return one()
     if c1 is False:
@@ -1231,6 +1264,14 @@ def r_call_args(R, **_):
             pk = R.look()
             R.guard_term(tok_is(R.st, pk, "assign"))
             require(R, is_none_cond(R, dyn_kwargs))
+            # "keyword arguments like in Python": a repeated keyword is a syntax error.  Decidable here for the keywords this
+            # rule has seen itself; for the part of the list behind the generic loop head it is C01.parse_call_args.distinct
+            seen = [to_term(R.st.get(e.fields["key"].tok).fields["value"], "str") for e in kwargs.items]
+            dup = z3.Or(*[k == to_term(R.st.get(R.cur).fields["value"], "str") for k in seen]) if seen else False
+            if kwargs.hole is None:
+                require(R, True if dup is False else z3.Not(dup))
+            elif R.choose(2) == 1:
+                R.fail()
             key = R.tok("name")
             R.tok("assign")
             value = R.call("parse_expression")
@@ -1494,6 +1535,7 @@ class Level(VC):
         VC.__init__(self, PROP, f"C02.parser.precedence.{method}" + (f"[{label}]" if label else ""))
         self.world = None
         self.bound_text = None
+        self.entry_iters = 2 if method == "parse_subscript" else 1
 
     def configure(self, I):
         CP.install(I, lambda: self.world, summarise_loops=False)
